@@ -568,6 +568,8 @@ func lenPositive(bo *ssa.BinOp, truth bool) bool {
 // caller supplied.
 var presenceAtoms = []*regexp.Regexp{
 	regexp.MustCompile(`^!.*\]#1$`),
+	regexp.MustCompile(`^!.*\.FieldByName\(key\)#1$`),                      // the type has no field of that name
+	regexp.MustCompile(`^\(\(reflect\.Value\)\.FieldByIndexErr\(.*#1 != nil\)$`), // the field lies behind a nil embedded pointer
 	regexp.MustCompile(`^!\(reflect\.Value\)\.(IsValid|CanInterface)\(`),
 	regexp.MustCompile(`^\(len\(.*\) (== 0|<= 0|< 1)\)$`),
 	regexp.MustCompile(`^\(.* == nil\)$`),
